@@ -133,7 +133,9 @@ package transport
 //@   ensures closed(dc.closeNotify)
 
 // exchange (C01, C02, C07).
-//  C07: exactly one of reply / error is returned (never nil,nil), on every path.
+//  C07: exactly one of reply / error is returned (never nil,nil), on every path; the caller that
+//       turns the connection from idle to waiting arms the short waiting-reply read deadline, and
+//       the reader clears the waiting flag after EVERY frame it reads (liveness detection).
 //  C01: a reply is taken from the channel this call registered (and from nowhere else), the
 //       caller's id is restored in it, and the registration is removed on every exit; every
 //       transmission carries the assigned wire id.
@@ -146,6 +148,7 @@ package transport
 //@   modifies *
 //@   preserves comp(TraditionalDnsConn.res)
 //@   ensures[C07] (result_0 != nil) != (result_1 != nil)
+//@   ensures[C07] calls(CompareAndSwap) <= 1 && (calls(CompareAndSwap) == 1 && ret(CompareAndSwap, 0) ==> calls(SetReadDeadline) == 1)
 //@   ensures[C01] result_0 != nil ==> len(*result_0) >= 12 && be16(*result_0) == old(be16(q))
 //@   ensures[C01] result_0 != nil ==> calls(addQueueC) == 1 && lastarg(chanRecv, 0) == ret(addQueueC, 0, 1) && result_0 == lastret(chanRecv, 0)
 //@   ensures[C01] calls(addQueueC) <= 1 && (calls(addQueueC) == 1 && ret(addQueueC, 0, 1) != nil ==> calls(deleteQueueC) == 1 && arg(deleteQueueC, 0, 1) == ret(addQueueC, 0, 0))
@@ -170,6 +173,7 @@ package transport
 //@     each[C01] iter_calls(chanSend) == 0 ==> iter_calls(ReleaseBuf) == 1 && iter_arg(ReleaseBuf, 0, 0) == r
 //@     each[C01] iter_ret(getQueueC, 0) != nil ==> iter_calls(chanSend) + iter_calls(pollFull) == 1
 //@     each[C02] iter_calls(pollFull) == 1 ==> iter_arg(pollFull, 0, 0) == iter_ret(getQueueC, 0) && cap(iter_arg(pollFull, 0, 0)) >= 1
+//@     each[C07] iter_calls(Store) == 1 && iter_arg(Store, 0, 1) == false && iter_calls(SetReadDeadline) == 1
 
 //@ func (dc *TraditionalDnsConn) readResp [C01]
 //@   requires dc != nil
@@ -206,6 +210,8 @@ package transport
 // reusableConn.exchange (C01, C02, C07): the 1-buffered reply slot is installed before the query is
 // written; the reply is taken from that slot's channel only; exactly one of reply / error is
 // returned; a close observed while waiting is followed by a last look into the reply channel.
+// The exchange itself never re-idles the connection nor touches the slot again: only the reader
+// does, after it emptied the slot (otherwise a late reply could reach the next caller).
 // The function panics only if the slot is occupied, i.e. if two exchanges ran on one connection
 // (excluded by the idle-set discipline of getIdleConn / setIdle, not re-proved here).
 //@ func (c *reusableConn) exchange [C01, C02, C07]
@@ -216,6 +222,7 @@ package transport
 //@   ensures[C07] (result_0 != nil) != (result_1 != nil)
 //@   ensures[C01] result_0 != nil ==> lastarg(chanRecv, 0) == respChan && result_0 == lastret(chanRecv, 0)
 //@   ensures result_0 != nil ==> len(*result_0) >= 12
+//@   ensures[C01] calls(setIdle) == 0 && calls(lock) == 1
 //@   ensures[C02] calls(Write) <= 1 && (calls(Write) == 1 ==> callpos(unlock, 0) < callpos(Write, 0) && atunlock(c.waitingResp) == respChan && cap(respChan) >= 1 && fresh(respChan))
 //@   ensures[C02] result_0 == nil && !closed(ctx.Done()) && calls(Write) == 1 && ret(Write, 0, 1) == nil && lastpos(chanRecv) >= 0 && lastarg(chanRecv, 0) == c.closeNotify ==> lastpos(pollEmpty) > lastpos(chanRecv) && lastarg(pollEmpty, 0) == respChan
 
